@@ -20,11 +20,14 @@ pub fn choose(rng: &mut Rng, mask: &SimpleVob, v: &Vocab, pol: Policy) -> Option
     if allowed.is_empty() {
         return None;
     }
-    let eos_allowed = mask.is_allowed(v.eos);
+    let eos_ok: Vec<u32> = v.eos_all.iter().copied().filter(|&e| mask.is_allowed(e)).collect();
+    let eos_allowed = !eos_ok.is_empty();
+    // a vocabulary with one EOS id takes no extra random number here
+    let eos_pick = |rng: &mut Rng| if eos_ok.len() > 1 { *rng.pick(&eos_ok) } else { eos_ok[0] };
     match pol {
         Policy::Closing => {
             if eos_allowed && rng.chance(3, 4) {
-                return Some(v.eos);
+                return Some(eos_pick(rng));
             }
             let cl: Vec<u32> = allowed
                 .iter()
@@ -47,7 +50,7 @@ pub fn choose(rng: &mut Rng, mask: &SimpleVob, v: &Vocab, pol: Policy) -> Option
             if !multi.is_empty() && rng.chance(2, 3) {
                 return Some(*rng.pick(&multi));
             }
-            let non_eos: Vec<u32> = allowed.iter().copied().filter(|&t| t != v.eos).collect();
+            let non_eos: Vec<u32> = allowed.iter().copied().filter(|&t| !v.is_eos(t)).collect();
             if !non_eos.is_empty() {
                 return Some(*rng.pick(&non_eos));
             }
@@ -55,7 +58,7 @@ pub fn choose(rng: &mut Rng, mask: &SimpleVob, v: &Vocab, pol: Policy) -> Option
         Policy::Uniform => {
             // EOS is one of often hundreds of tokens; give it a fixed small chance instead
             if eos_allowed && rng.chance(1, 8) {
-                return Some(v.eos);
+                return Some(eos_pick(rng));
             }
         }
     }
